@@ -48,6 +48,8 @@ Definition show_denote (o : option (list rr)) : string :=
 Definition run0 (fn : string) (args : list string) : string :=
   if String.eqb fn "denote" then
     show_denote (denote (unhex (arg args 0)) (opt_dec (arg args 1)) (parse_zone_spec (arg args 2)))
+  else if String.eqb fn "skel" then
+    showb (forall2b realizes_b (lex (expand (arg args 1))) (sk_zone (parse_zone_spec (arg args 0))))
   else if String.eqb fn "ttlspec" then show_optn (ttl_of_text (unhex (arg args 0)))
   else if String.eqb fn "complete" then hex (complete (unhex (arg args 0)) (unhex (arg args 1)))
   else Corr.C07.run0 fn args.
